@@ -19,6 +19,7 @@ Exit status 0 = property held on everything explored, 1 = violation (a VIOLATION
 import json
 import os
 import re
+import shutil
 import subprocess
 import sys
 import time
@@ -203,19 +204,31 @@ def run_harness(binary, cmd, outdir, args, timeout=7200):
 
 def run_driver(outdir, timeout=7200):
     """Answer req.txt with the Lean driver. The driver is a pure function of each line, so the file is
-    split into contiguous chunks answered by parallel driver processes and the replies are concatenated."""
+    split into contiguous chunks answered by parallel driver processes and the replies are concatenated.
+    Everything is streamed: a thorough run has millions of long lines."""
     drv = os.path.join(LEAN, ".lake", "build", "bin", "driver")
-    lines = open(os.path.join(outdir, "req.txt")).read().splitlines(keepends=True)
-    jobs = max(1, min(os.cpu_count() or 1, 16, len(lines) // 2000 + 1))
-    size = (len(lines) + jobs - 1) // jobs if lines else 0
+    reqp = os.path.join(outdir, "req.txt")
+    nlines = 0
+    with open(reqp, "rb") as f:
+        for _ in f:
+            nlines += 1
+    jobs = max(1, min(os.cpu_count() or 1, 16, nlines // 2000 + 1))
+    size = (nlines + jobs - 1) // jobs if nlines else 0
+    parts = []
+    with open(reqp, "rb") as f:
+        for j in range(jobs):
+            pin = os.path.join(outdir, "req.%d.part" % j)
+            with open(pin, "wb") as g:
+                for _ in range(size):
+                    line = f.readline()
+                    if not line:
+                        break
+                    g.write(line)
+            parts.append(pin)
     procs = []
-    for j in range(jobs):
-        part = lines[j * size:(j + 1) * size] if size else []
-        pin = os.path.join(outdir, "req.%d.part" % j)
+    for j, pin in enumerate(parts):
         pout = os.path.join(outdir, "lean.%d.part" % j)
-        with open(pin, "w") as f:
-            f.writelines(part)
-        procs.append((subprocess.Popen([drv], stdin=open(pin), stdout=open(pout, "w"), stderr=subprocess.PIPE), pin, pout))
+        procs.append((subprocess.Popen([drv], stdin=open(pin, "rb"), stdout=open(pout, "wb"), stderr=subprocess.PIPE), pin, pout))
     rc, err = 0, ""
     deadline = time.time() + timeout
     for p, pin, pout in procs:
@@ -227,28 +240,38 @@ def run_driver(outdir, timeout=7200):
             rc, err = 124, err + "driver timed out after %ds; " % timeout
         if p.returncode not in (0, None) and rc == 0:
             rc = p.returncode
-        err += e.decode(errors="replace")
-    with open(os.path.join(outdir, "lean.txt"), "w") as fout:
+        err += e.decode(errors="replace")[-2000:]
+    with open(os.path.join(outdir, "lean.txt"), "wb") as fout:
         for _, pin, pout in procs:
-            fout.write(open(pout).read())
+            with open(pout, "rb") as g:
+                shutil.copyfileobj(g, fout)
             os.remove(pin)
             os.remove(pout)
     return rc, err
 
 
 def diff_replies(outdir, limit=20):
-    req = open(os.path.join(outdir, "req.txt")).read().splitlines()
-    imp = open(os.path.join(outdir, "impl.txt")).read().splitlines()
-    lean = open(os.path.join(outdir, "lean.txt")).read().splitlines()
+    """Stream the three files side by side; returns (number of requests, first `limit` differences)."""
     diffs = []
-    if not (len(req) == len(imp) == len(lean)):
-        diffs.append({"request": "<line counts>", "impl": str(len(imp)), "model": str(len(lean))})
-    for r, a, b in zip(req, imp, lean):
-        if a != b:
-            diffs.append({"request": r, "impl": a, "model": b})
-            if len(diffs) >= limit:
+    n = [0, 0, 0]
+    with open(os.path.join(outdir, "req.txt"), errors="replace") as fr, \
+         open(os.path.join(outdir, "impl.txt"), errors="replace") as fi, \
+         open(os.path.join(outdir, "lean.txt"), errors="replace") as fl:
+        while True:
+            r, a, b = fr.readline(), fi.readline(), fl.readline()
+            if not r and not a and not b:
                 break
-    return len(req), diffs
+            n[0] += 1 if r else 0
+            n[1] += 1 if a else 0
+            n[2] += 1 if b else 0
+            if not (r and a and b):
+                continue
+            a, b = a.rstrip("\n"), b.rstrip("\n")
+            if a != b and len(diffs) < limit:
+                diffs.append({"request": r.rstrip("\n"), "impl": a, "model": b})
+    if not (n[0] == n[1] == n[2]):
+        diffs.insert(0, {"request": "<line counts>", "impl": str(n[1]), "model": str(n[2])})
+    return n[0], diffs
 
 
 # ----------------------------------------------------------------------------- known findings
